@@ -64,3 +64,135 @@ Lemma fresh_not_mem f p i : fresh_at f p i = true -> fs_mem f p = false.
 Proof.
   unfold fresh_at. rewrite !andb_true_iff. intros [[[_ H] _] _]. now apply negb_true_iff in H.
 Qed.
+
+(* ---------------------------------------------------------------- prefix order on component paths *)
+Lemma under_nil_r p : under p [] = true -> p = [].
+Proof. destruct p; [reflexivity | discriminate]. Qed.
+
+Lemma under_refl' s : under s s = true.
+Proof. induction s as [|x s IH]; simpl; [reflexivity|]. now rewrite beqb_refl. Qed.
+
+Lemma under_app s r : under s (s ++ r) = true.
+Proof. induction s as [|x s IH]; simpl; [reflexivity|]. now rewrite beqb_refl. Qed.
+
+Lemma under_split s q : under s q = true -> q = s ++ skipn (length s) q.
+Proof.
+  revert q; induction s as [|x s IH]; intros q H; [reflexivity|].
+  destruct q as [|y q]; [discriminate|]. simpl in H. apply andb_true_iff in H as [H1 H2].
+  apply beqb_eq in H1. subst. simpl. f_equal. now apply IH.
+Qed.
+
+Lemma under_trans a b c : under a b = true -> under b c = true -> under a c = true.
+Proof.
+  intros H1 H2. rewrite (under_split _ _ H2), (under_split _ _ H1), <- app_assoc. apply under_app.
+Qed.
+
+Lemma under_length s q : under s q = true -> (length s <= length q)%nat.
+Proof. intros H. apply under_split in H. rewrite H. rewrite app_length. lia. Qed.
+
+Lemma under_same_length s q : under s q = true -> length s = length q -> q = s.
+Proof.
+  intros H L. pose proof (under_split _ _ H) as E. rewrite E. 
+  assert (skipn (length s) q = []) as -> by (apply skipn_all2; lia). now rewrite app_nil_r.
+Qed.
+
+(* two paths neither of which is a prefix of the other have no common extension *)
+Lemma incomparable s d : under s d = false -> under d s = false -> forall r r', s ++ r <> d ++ r'.
+Proof.
+  revert d; induction s as [|x s IH]; intros d H1 H2 r r' E; [discriminate|].
+  destruct d as [|y d]; [discriminate|]. simpl in *. inversion E; subst.
+  rewrite beqb_refl in *. simpl in *. eapply IH; eauto.
+Qed.
+
+Lemma parent_app p r : r <> [] -> parent (p ++ r) = p ++ parent r.
+Proof. intros H. unfold parent. now apply removelast_app. Qed.
+
+Lemma parent_length p : p <> [] -> S (length (parent p)) = length p.
+Proof.
+  intros H. unfold parent. destruct (exists_last H) as (l & a & ->).
+  rewrite removelast_last, app_length. simpl. lia.
+Qed.
+
+Lemma under_parent p q : under p (parent q) = true -> under p q = true.
+Proof.
+  destruct q as [|x q]; [auto|]. intros H.
+  destruct (exists_last (l := x :: q)) as (l & a & E); [discriminate|].
+  rewrite E in *. unfold parent in H. rewrite removelast_last in H.
+  rewrite (under_split _ _ H), <- app_assoc. apply under_app.
+Qed.
+
+Lemma parent_under q : under (parent q) q = true.
+Proof. apply under_parent, under_refl'. Qed.
+
+(* ---------------------------------------------------------------- look-ups *)
+Lemma lookup_in f p e : lookup f p = Some e -> In e f /\ e_path e = p.
+Proof.
+  unfold lookup. intros H. apply find_some in H as [H1 H2]. split; [exact H1 | now apply path_eqb_eq].
+Qed.
+
+Lemma lookup_none f p : lookup f p = None -> forall e, In e f -> e_path e <> p.
+Proof.
+  unfold lookup. intros H e He E. eapply find_none in H; [|exact He]. cbv beta in H.
+  rewrite E, path_eqb_refl in H. discriminate.
+Qed.
+
+Lemma mem_in f p : fs_mem f p = true -> exists e, In e f /\ e_path e = p.
+Proof.
+  unfold fs_mem. destruct (lookup f p) as [e|] eqn:E; [|discriminate]. intros _. exists e. now apply lookup_in.
+Qed.
+
+Lemma not_mem_in f p : fs_mem f p = false -> forall e, In e f -> e_path e <> p.
+Proof. unfold fs_mem. destruct (lookup f p) eqn:E; [discriminate|]. intros _. now apply lookup_none. Qed.
+
+Lemma isdir_mem f p : fs_isdir f p = true -> fs_mem f p = true.
+Proof. unfold fs_isdir, fs_mem. destruct (lookup f p); [reflexivity | discriminate]. Qed.
+
+(* ---------------------------------------------------------------- parent-closed trees *)
+Definition closed_fs (f : fs) : Prop :=
+  forall e, In e f -> e_path e <> [] /\ (parent (e_path e) = [] \/ fs_isdir f (parent (e_path e)) = true).
+
+Lemma wf_closed f : wf_fs f -> closed_fs f.
+Proof. intros [_ H]. exact H. Qed.
+
+(* nothing lies below a path that is not in the tree *)
+Lemma no_orphans f p : closed_fs f -> p <> [] -> fs_mem f p = false ->
+  forall e, In e f -> under p (e_path e) = false.
+Proof.
+  intros C Hp Hm.
+  assert (H : forall n e, In e f -> length (e_path e) = n -> under p (e_path e) = false).
+  { induction n as [n IH] using lt_wf_ind. intros e He Hn.
+    destruct (under p (e_path e)) eqn:U; [|reflexivity]. exfalso.
+    pose proof (under_split _ _ U) as E. set (r := skipn (length p) (e_path e)) in *.
+    destruct r as [|x r'] eqn:Er.
+    - rewrite app_nil_r in E. eapply not_mem_in; eauto.
+    - destruct (C e He) as [Hne Hpar].
+      assert (Hpp : parent (e_path e) = p ++ parent (x :: r')) by (rewrite E at 1; apply parent_app; discriminate).
+      destruct Hpar as [Hpar|Hpar].
+      + rewrite Hpp in Hpar. destruct p; [contradiction | discriminate].
+      + apply isdir_mem, mem_in in Hpar as (e' & He' & Ee').
+        assert (Hlt : (length (e_path e') < n)%nat).
+        { rewrite Ee'. pose proof (parent_length _ Hne). lia. }
+        pose proof (IH _ Hlt e' He' eq_refl) as Hu. rewrite Ee', Hpp, under_app in Hu. discriminate. }
+  intros e He. eapply H; eauto.
+Qed.
+
+(* nothing lies below a path that is not a directory of the tree *)
+Lemma below_nondir_leaf f s : closed_fs f -> s <> [] -> fs_isdir f s = false ->
+  forall e, In e f -> under s (e_path e) = true -> e_path e = s.
+Proof.
+  intros C Hs Hd.
+  assert (H : forall n e, In e f -> length (e_path e) = n -> under s (e_path e) = true -> e_path e = s).
+  { induction n as [n IH] using lt_wf_ind. intros e He Hn U.
+    pose proof (under_split _ _ U) as E. set (r := skipn (length s) (e_path e)) in *.
+    destruct r as [|x r'] eqn:Er; [now rewrite app_nil_r in E|]. exfalso.
+    destruct (C e He) as [Hne Hpar].
+    assert (Hpp : parent (e_path e) = s ++ parent (x :: r')) by (rewrite E at 1; apply parent_app; discriminate).
+    destruct Hpar as [Hpar|Hpar].
+    - rewrite Hpp in Hpar. destruct s; [contradiction | discriminate].
+    - pose proof Hpar as Hpar'. apply isdir_mem, mem_in in Hpar as (e' & He' & Ee').
+      assert (Hlt : (length (e_path e') < n)%nat).
+      { rewrite Ee'. pose proof (parent_length _ Hne). lia. }
+      assert (Hu : under s (e_path e') = true) by (rewrite Ee', Hpp; apply under_app).
+      pose proof (IH _ Hlt e' He' eq_refl Hu) as Es. rewrite Ee' in Es. rewrite Es in Hpar'. congruence. }
+  intros e He. eapply H; eauto.
+Qed.
